@@ -67,6 +67,26 @@ fn record_registration_body(
     let (b, top) = rec.build(prog);
     rec.print(top, &b);
     let blay = b.verif_layout();
+    #[cfg(feature = "parallel")]
+    if build_async() {
+        // `build_async` is a build too: same plan, no panic (the dispatcher is not run here)
+        let pool2 = pool.clone();
+        let r = std::panic::catch_unwind(std::panic::AssertUnwindSafe(move || {
+            let b = if early || nopool { b } else { b.with_pool(pool2) };
+            b.build_async(shred::World::empty())
+        }));
+        match r {
+            Ok(mut ad) => {
+                let dl = ad.verif_layout();
+                let (lay, tl) = rec.layout_gids(&dl);
+                rec.events.push(json!({"ev":"built","b":top,"out":"ok","lay":lay,"tl":tl,"maxthreads":0,"parallel":false,
+                    "same": dl == blay, "async": true}));
+            }
+            Err(_) => rec.events.push(json!({"ev":"built","b":top,"out":"other","lay":[],"tl":[],"maxthreads":0,
+                "parallel":false,"same":false,"async":true})),
+        }
+        return Recorded { rec, dispatcher: None, top };
+    }
     // (attaching the pool is a builder call like any other: a panic in it is data, not a harness crash)
     let d = std::panic::catch_unwind(std::panic::AssertUnwindSafe(move || {
         #[cfg(feature = "parallel")]
@@ -100,6 +120,19 @@ fn record_registration_body(
 thread_local! {
     static EARLY_POOL: std::cell::Cell<bool> = std::cell::Cell::new(false);
     static NO_POOL: std::cell::Cell<bool> = std::cell::Cell::new(false);
+}
+
+thread_local! {
+    static BUILD_ASYNC: std::cell::Cell<bool> = std::cell::Cell::new(false);
+}
+
+/// The following programs of this thread are built with `build_async` (and not run).
+pub fn set_build_async(on: bool) {
+    BUILD_ASYNC.with(|a| a.set(on));
+}
+
+pub fn build_async() -> bool {
+    BUILD_ASYNC.with(|a| a.get())
 }
 
 /// The following programs of this thread get no pool from the harness: `build` creates the default one.
